@@ -9,9 +9,12 @@ import (
 	"os"
 	"path/filepath"
 	"sort"
+	"strings"
+	"sync"
 
 	anystore "github.com/anyproto/any-store"
 
+	"github.com/anyproto/any-sync/commonspace/headsync/headstorage"
 	"github.com/anyproto/any-sync/commonspace/object/accountdata"
 	"github.com/anyproto/any-sync/commonspace/object/acl/list"
 	"github.com/anyproto/any-sync/commonspace/object/acl/list/listtest"
@@ -69,7 +72,44 @@ func newWorld(dir string) (*world, error) {
 }
 
 // replica is a real space (storage + ACL + trees) on one database.
+// headObs is what a head-storage observer (head sync's diff) has been told.
+type headObs struct {
+	mu   sync.Mutex
+	last map[string][]string
+}
+
+func (o *headObs) OnUpdate(e headstorage.HeadsEntry) {
+	o.mu.Lock()
+	o.last[e.Id] = sortedCopy(e.Heads)
+	o.mu.Unlock()
+}
+
+// attachObserver: like head sync at start-up, the observer first reads what is stored.
+func (r *replica) attachObserver(st *absState) {
+	r.obs = &headObs{last: map[string][]string{}}
+	for id, h := range st.Heads {
+		r.obs.last[id] = sortedCopy(h.Heads)
+	}
+	r.ss.HeadStorage().AddObserver(r.obs)
+}
+
+// observerAgrees: every head set the observers were told is the stored one.
+func (r *replica) observerAgrees(cur *absState) string {
+	if r.obs == nil {
+		return ""
+	}
+	r.obs.mu.Lock()
+	defer r.obs.mu.Unlock()
+	for id, told := range r.obs.last {
+		if stored := sortedCopy(cur.Heads[id].Heads); strings.Join(told, ",") != strings.Join(stored, ",") {
+			return fmt.Sprintf("observers were told heads %v of %s, stored heads are %v", shorts(told), short(id), shorts(stored))
+		}
+	}
+	return ""
+}
+
 type replica struct {
+	obs   *headObs
 	w     *world
 	path  string
 	db    anystore.DB
